@@ -478,8 +478,8 @@ def multi_cases():
 
 
 SUBCHECKS = [
-    SubCheck("single", single_cases, run_single, quick=800, thorough=10000, cost=1.0,
+    SubCheck("single", single_cases, run_single, quick=800, thorough=10000, cost=1.0, fuzz_runs=40000,
              rule="a sample or exhaustive sweep executed after wrap-around (additions > capacity)"),
-    SubCheck("multitask", multi_cases, run_multi, quick=800, thorough=10000, cost=1.5,
+    SubCheck("multitask", multi_cases, run_multi, quick=800, thorough=10000, cost=1.5, fuzz_runs=40000,
              rule="a sample or sweep executed after wrap-around of the sampled task while >= 2 tasks hold data"),
 ]
